@@ -37,6 +37,16 @@ def build(rnd, root):
                     kinds[os.path.join(job.path, "data")] = "plain"
                     if rnd.random() < 0.4:
                         grow(job.path, depth + 2, sub)
+                if rnd.random() < 0.35:
+                    # a job directory that is a symbolic link to a directory elsewhere (outside every project)
+                    outside = os.path.join(root, "outside_%d" % len(kinds))
+                    os.makedirs(os.path.join(outside, "inner"), exist_ok=True)
+                    link = os.path.join(sub, "workspace", jid(len(kinds)))
+                    os.makedirs(os.path.dirname(link), exist_ok=True)
+                    if not os.path.lexists(link):
+                        os.symlink(outside, link)
+                        kinds[link] = "job"
+                        kinds[os.path.join(link, "inner")] = "plain"
                 kinds[os.path.join(sub, "workspace")] = "plain"
             grow(sub, depth + 1, sub if is_proj else enclosing)
     kinds[root] = "plain"
@@ -77,6 +87,8 @@ def scenario(seed):
                 cwd0 = os.getcwd()
                 try:
                     if spelling == "rel":
+                        if os.path.realpath(os.path.dirname(path)) != os.path.dirname(path):
+                            continue        # a cwd reached through a symlink is reported by the OS as its target: the lexical path is gone
                         os.chdir(os.path.dirname(path) or "/")
                         q = os.path.basename(path)
                     # get_project
